@@ -405,6 +405,9 @@ def gen(tier, seed):
     for n, sp in enumerate(gen_specs(tier, seed)):
         mods.append(emit(f'm{n:04d}', spec_id(sp), sp))
     mods += generic_modules(len(mods))
+    from .runner import empty_enum_module
+    for el in ['Debug(name = Rn)', 'Debug(name = true)']:   # with the enum name off (default) there is nothing to print: refused (C13)
+        mods.append(empty_enum_module(f'm{len(mods):04d}', el, 'core::fmt::Debug', FUNCTIONS))
     return mods
 
 
